@@ -1,4 +1,5 @@
 import Amqp.Lemmas.Deliver
+import Amqp.Lemmas.ConsumeLoop
 import Amqp.Gen.Skel
 /-!
 # C03 — consumers get every delivery exactly once, in order and intact
@@ -9,6 +10,8 @@ RPC).  Part 2: the reader appending to the queue and the single consuming thread
 messages (`_build_message*`), in any interleaving.  Fragmentation of the byte stream and other
 channels' traffic are dealt with by C02 (`feed_any_chunking`, `route_correct`): each channel sees
 exactly its own frames, in order.  Dispatch of a message to the callback of its consumer tag is C14.
+Part 3 (`Amqp.ConsumeLoop`): the loop of `start_consuming` against the reader — what was delivered
+before the last consumer went away is still handed over before the call returns.
 -/
 namespace Amqp.C03
 open Amqp.Deliver
@@ -179,6 +182,7 @@ theorem skel_Channel_process_data_events : Gen.Skel.Channel_process_data_events 
 theorem skel_Channel__basic_return : Gen.Skel.Channel__basic_return =
   ["r:exceptions", "call:exceptions.append", "w:_returned_content_left"] := by decide
 
+
 /-! ## Non-vacuity -/
 def d1 : Delivery := ⟨1, 10, [[1, 2], [3]]⟩
 def d2 : Delivery := ⟨2, 20, []⟩
@@ -190,3 +194,71 @@ example : (run { future := d1.frames ++ d2.frames }
     some [d1.msg, d2.msg] := by decide
 
 end Amqp.C03
+
+/-! ## Part 3 — `start_consuming` returns only after everything delivered has been handed over -/
+namespace Amqp.C03
+open Amqp.ConsumeLoop
+
+/-- tie: the loop of `Channel.start_consuming`, as extracted from the source on this run, looks at the
+    consumer tags, then drains, then decides -/
+theorem consume_loop_program : ConsumeLoop.program = some goodProg := by decide
+
+/-- **Nothing is lost or duplicated on the way**: in every interleaving of the reader (deliveries,
+    consumers going away), other threads adding consumers and the micro-steps of the consuming
+    thread, what was handed to the callbacks followed by what is still queued is exactly what the
+    reader queued, in order.  Any number of consumers, deliveries and steps. -/
+theorem consume_loop_conserves (n : Nat) (as : List Act) (p : List Op) (s : S)
+    (hp : ConsumeLoop.program = some p) (h : ConsumeLoop.run (init p n) as = some s) :
+    s.handed ++ s.inbound = s.log := by
+  have : p = goodProg := by rw [consume_loop_program] at hp; exact (Option.some.inj hp).symm
+  subst this
+  exact (run_inv _ _ as (inv_init n) h).conserve
+
+/-- **`start_consuming` returns only when every delivery has been handed over**: in every such
+    interleaving, once the call has returned the queue is empty and the callbacks have received
+    exactly the deliveries the reader queued, in order — in particular those that arrived together
+    with the Basic.Cancel / CancelOk that removed the last consumer, whenever the reader ran. -/
+theorem start_consuming_hands_over_everything (n : Nat) (as : List Act) (p : List Op) (s : S)
+    (hp : ConsumeLoop.program = some p) (h : ConsumeLoop.run (init p n) as = some s) (hd : s.done = true) :
+    s.inbound = [] ∧ s.handed = s.log ∧ s.tags = 0 := by
+  have : p = goodProg := by rw [consume_loop_program] at hp; exact (Option.some.inj hp).symm
+  subst this
+  have inv := run_inv _ _ as (inv_init n) h
+  have hr := inv.ret hd
+  have hi := inv.drained hr.1 hr.2
+  refine ⟨hi, ?_, (inv.unseen hr.1).2⟩
+  have := inv.conserve
+  rw [hi, List.append_nil] at this
+  exact this
+
+/-- **and it does return**: once no consumer is left, the consuming thread on its own leaves the loop
+    within two iterations (seven micro-steps), from whatever point of the loop it is at. -/
+theorem start_consuming_returns (s : S) (hi : Inv s) (ht : s.tags = 0) : (spin 7 s).done = true := by
+  obtain ⟨hp, _, hle, hu, _, hr⟩ := hi
+  by_cases hdn : s.done = true
+  · simp [spin, step, hdn]
+  · have hpc : s.pc = 0 ∨ s.pc = 1 ∨ s.pc = 2 ∨ s.pc = 3 := by omega
+    have hf : s.done = false := by simpa using hdn
+    cases hsm : s.sampled <;> rcases hpc with h | h | h | h <;>
+      simp [spin, step, stepOp, hp, goodProg, hf, h, hsm, ht]
+
+/-- why the order matters (the loop as it was: drain, then look, then decide): the reader queues a
+    delivery and removes the last consumer between the drain and the look — the call returns with the
+    delivery still queued.  This interleaving was replayed on the real code (fixed in /repo). -/
+theorem drain_before_look_loses_a_delivery :
+    (ConsumeLoop.run (init [.drain, .read, .exitq] 1) [.consumer, .deliver 7, .cancel, .consumer, .consumer]).map
+      (fun s => (s.done, s.inbound, s.handed)) = some (true, [7], []) := by decide
+
+/-- likewise when the look-and-decide sits at the loop head and nothing drains after it -/
+theorem decide_before_drain_loses_a_delivery :
+    (ConsumeLoop.run (init [.read, .exitq, .drain] 1) [.consumer, .consumer, .consumer, .deliver 7, .cancel,
+        .consumer, .consumer, .consumer]).map (fun s => (s.done, s.inbound, s.handed)) = some (true, [7], []) := by decide
+
+-- non-vacuity: two consumers, deliveries arriving around both cancels, the call returns with all three handed over
+example : (ConsumeLoop.run (init goodProg 2) [.consumer, .deliver 1, .consumer, .cancel, .deliver 2, .consumer, .consumer,
+    .consumer, .deliver 3, .cancel, .consumer, .consumer, .consumer, .consumer, .consumer, .consumer]).map
+      (fun s => (s.done, s.handed, s.inbound)) = some (true, [1, 2, 3], []) := by decide
+example : Inv (init goodProg 2) := inv_init 2
+
+end Amqp.C03
+
